@@ -106,8 +106,15 @@ Definition SieveP : policy :=
 (** CLOCK.  [ck_o] is `order` as in the code (push at the end), hand an index. *)
 Record clock := mkClock { ck_o : list ent; ck_hand : nat }.
 
+(* `entry.cost = cost` for the entry of k: position and reference bit are kept *)
+Fixpoint esetcost (k c : N) (l : list ent) : list ent :=
+  match l with
+  | [] => []
+  | e :: t => if N.eqb k (ekey e) then (k, c, eflag e) :: esetcost k c t else e :: esetcost k c t
+  end.
+
 Definition clock_admit (k c : N) (s : clock) : clock :=
-  if ehas k (ck_o s) then s                       (* F-19: old cost kept *)
+  if ehas k (ck_o s) then mkClock (esetcost k c (ck_o s)) (ck_hand s)   (* re-admission records the new cost *)
   else mkClock (ck_o s ++ [(k, c, false)]) (ck_hand s).
 
 Definition clock_remove (k : N) (s : clock) : clock :=
